@@ -1,6 +1,7 @@
 from common import *
 from l2 import *
 import g01gen
+import g02gen
 
 
 def ref_of(fo):
@@ -30,9 +31,17 @@ def run(tier, replay=None):
     fos.append(os.path.join(gdir, "g01.fo"))
     ck.seed = seed
     ck.bounds["generated_family_G01"] = "%d random programs (seed %d): let-normal-form bodies of 2..5 statements over int/bool with if/elif/else, &&/||, + - *const, comparisons, match on a 3-case union, pipe into a partial application, tuple destructuring, nested blocks to depth 2, tagged trace calls around sub-expressions" % (count, seed)
+    # generated family G02 (closures, partial applications, nested matches, minimal parentheses, random indentation)
+    count2 = 16 if tier == "quick" else 120
+    h_fo, h_go, h_names = g02gen.gen(seed, count2)
+    open(os.path.join(gdir, "g02.fo"), "w").write(h_fo)
+    fos.append(os.path.join(gdir, "g02.fo"))
+    ck.bounds["generated_family_G02"] = "%d random programs (seed %d): inner functions and lambdas capturing enclosing variables, stored partial applications leaving two parameters open, inferred generic helpers, nested matches (default-less inner match before an outer default arm, payload-ignoring arms), <= >= / not, pipe chains; half printed with the minimal parentheses of the published operator table, all with block indentation of 1..4 columns per level" % (count2, seed)
     m.transpile(fc, os.path.join(REPO, "pkg/pkg_all.foi"), fos)
     if "g01.fo" in m.programs:
         open(os.path.join(m.dir, "g01_ref.go"), "w").write(g_go)
+    if "g02.fo" in m.programs:
+        open(os.path.join(m.dir, "g02_ref.go"), "w").write(h_go)
     m.add_api()
     m.add_go([os.path.join(corpus, "common.go")] + [os.path.join(corpus, ref_of(p)[0]) for p in m.programs
                                                       if os.path.exists(os.path.join(corpus, ref_of(p)[0]))])
@@ -67,7 +76,7 @@ def run(tier, replay=None):
                         timeout=300 if tier == "quick" else 1500)
         ck.add_run(res)
         ck.handle_violations(res, rp, env=env, timeout=60)
-    ck.programs = len(m.programs) - 1 + (count if "g01.fo" in m.programs else 0)
+    ck.programs = len(m.programs) - 2 + (count if "g01.fo" in m.programs else 0) + (count2 if "g02.fo" in m.programs else 0)
     ck.extra["corpus_files"] = m.programs
     ck.extra["functions_compared"] = sum(len(re.findall(r"verifAssert\(", open(os.path.join(m.dir, f)).read()))
                                          for f in os.listdir(m.dir) if f.endswith("_ref.go"))
